@@ -403,8 +403,13 @@ class SelFromPlot:
         """
         Sorts the selected poles based on their frequencies.
         """
-        sorted_indices = np.argsort(self.sel_freq)
+        sorted_indices = np.argsort(self.sel_freq, kind="stable")
         self.sel_freq = list(np.array(self.sel_freq)[sorted_indices])
+        # keep every frequency paired with the order (or frequency line) at which it was picked
+        if self.plot in ("SSI", "pLSCF"):
+            self.pole_ind = [self.pole_ind[i] for i in sorted_indices]
+        elif self.plot == "FDD":
+            self.freq_ind = [self.freq_ind[i] for i in sorted_indices]
 
     def show_help(self) -> None:
         """
